@@ -73,6 +73,7 @@ fn simple_type(name: &str, k: u64, _w: u64) -> Item {
             Some(Vft {
                 size: None,
                 funcs: vec![Func {
+                    sty: 0,
                     vis: true,
                     name: "vfx".into(),
                     doc: vec![],
